@@ -27,19 +27,23 @@ IS_GOOD = 'emd.cycles.is_good'
 
 
 def run(ctx):
-    rule_criteria(ctx, 'C13.R1')
-    rule_acceptance(ctx, 'C13.R2')
-    rule_forwarding(ctx, 'C13.R3')
+    ctx.rule(rule_criteria, 'C13.R1')
+    ctx.rule(rule_acceptance, 'C13.R2')
+    ctx.rule(rule_forwarding, 'C13.R3')
     # the container's per-cycle flag is computed over the slices of the slice cache: their boundaries must be the
     # cycle boundaries (a short last slice drops the sample that meets the end-edge criterion)
     from . import c15
-    c15.rule_cache(ctx, 'C13.R4')
+    ctx.rule(c15.rule_cache, 'C13.R4')
     # the segments the criteria are applied to are the wrap-delimited ones (default threshold 1.5 pi), taken from
     # canonicalised phase and mask that are compared on the sample axis
     from . import c12, c19, cyclevec
-    c12.rule_unfiltered(ctx, 'C13.R5', cyclevec.get(ctx, False, False))
-    c12.rule_canonical_inputs(ctx, 'C13.R5')
-    c19.rule_ensure_sites(ctx, 'C13.R5', only={cyclevec.GCV})
+    ctx.rule(c12.rule_unfiltered, 'C13.R5', cyclevec.get(ctx, False, False))
+    ctx.rule(c12.rule_canonical_inputs, 'C13.R5')
+    ctx.rule(c19.rule_ensure_sites, 'C13.R5', only={cyclevec.GCV})
+    # the container's flag is a per-cycle statistic of is_good: the statistic must be the function applied to the
+    # samples of each cycle, also for a one-sample cycle
+    from . import c14
+    ctx.rule(c14.rule_stat, 'C13.R6')
 
 
 def rule_criteria(ctx, rid):
